@@ -397,6 +397,9 @@ func (tr *Tr) initArray(st *State, ref string, et types.Type) {
 		zero := fmt.Sprintf("((as const (Array Int %s)) %s)", lf.sort, zeroOf(lf.sort))
 		sym := tr.nameTerm(name, arr2(lf.sort), sStore(h, ref, zero))
 		tr.stores[sym] = storeRec{base: h, ref: ref, idx: "*", val: zeroOf(lf.sort)}
+		if tr.freshRefs[ref] {
+			tr.allocParent[sym] = h
+		}
 		tr.setHeapVar(st, name, arr2(lf.sort), sym)
 	}
 }
